@@ -107,6 +107,14 @@ impl<'a> MemfsGuard<'a> {
 }
 
 /// Provides a purely memory based, multi-thread safe [`VirtualFileSystem`] backend implementation
+// Verification hook: announce the release of a guard
+#[cfg(rivia_verif)]
+impl<'a> Drop for MemfsGuard<'a> {
+    fn drop(&mut self) {
+        crate::verif::lock_event(crate::verif::LockEvent::Release);
+    }
+}
+
 #[derive(Debug)]
 pub struct Memfs(Arc<RwLock<MemfsInner>>);
 
@@ -150,11 +158,15 @@ impl Memfs {
 
     // Create a MemfsGuard::Read
     pub(crate) fn read_guard(&self) -> MemfsGuard {
+        #[cfg(rivia_verif)]
+        crate::verif::lock_event(crate::verif::LockEvent::AcquireRead);
         MemfsGuard::Read(self.0.read().unwrap())
     }
 
     // Create a MemfsGuard::write
     pub(crate) fn write_guard(&self) -> MemfsGuard {
+        #[cfg(rivia_verif)]
+        crate::verif::lock_event(crate::verif::LockEvent::AcquireWrite);
         MemfsGuard::Write(self.0.write().unwrap())
     }
 
